@@ -229,15 +229,8 @@ theorem C07_run_total (hW : PartW m) (hF : PartF m) (s : St) (h : p.initLog = tr
         ((((simulate m p s).logs.fState f).count RS.working : Nat) : Rat)) := by
   have h1 := C07_total (p := p) hW hF (fuelOf p (enter m p s)) (enter m p s)
   rw [← simulate_eq, enter_logs s h] at h1
-  simp only [clearLogs, List.length_nil, List.drop_zero] at h1
-  rw [h1]
-  congr 2
-  · apply List.map_congr_left
-    intro w hw
-    simp [List.mem_range.mp hw]
-  · apply List.map_congr_left
-    intro f hf
-    simp [List.mem_range.mp hf]
+  simp only [clearLogs, Logs.empty, List.length_nil, List.drop_zero] at h1
+  exact h1
 
 /-- the demo run costs 18 = 3·2 (worker 0 logged WORKING twice) + 5·1 + 7·1 -/
 example : sumList (simulate demo demoP St.fresh).logs.projCost = 18 ∧
